@@ -28,7 +28,7 @@ CHECKS = {
 
 CHECKS.update({
     "C07": ("ConfigLoad", "abstract configurations enumerated by TLC (invariants: calls independent of layout / carrier, unknown names ignored); every configuration serialised in every layout x carrier that can express it and Config(source).calls validated by Trace_Config, incl. the Call.config() round trip"),
-    "C19": ("Store", "FrameOK model-checked for satisfiability over CF-illegal stream ids x write flags x include / exclude lists; real PandasStore.save frames, compute_aggregate roll-ups and cf_safe_name outputs validated by Trace_Store"),
+    "C19": ("Store", "FrameOK model-checked for satisfiability over CF-illegal stream ids x write flags x include / exclude lists; histories of real PandasStore objects (save / compute_aggregate / save again) and cf_safe_name outputs validated by Trace_Store, which tracks the object's state"),
     "C20": ("FxParser", "history independence and precedence of the postfix stack machine model-checked against an independent precedence-climbing semantics over exact rationals for every expression of depth <= 2; real eval_fx sessions (stack never cleared), validator decisions and create_config runs on synthetic climatologies validated by Trace_Fx"),
 })
 NOT_YET = {}
